@@ -211,8 +211,6 @@ func RunC10(run *vk.Run) {
 				}
 				// destroy-after-durable: evaluated at the moment the old key is about to be destroyed
 				t.OnDestroy = func(name string) {
-					saved := *t
-					_ = saved
 					kc, err := a.Loaded()
 					if err != nil {
 						fs = append(fs, "destroy-before-durable")
